@@ -60,7 +60,7 @@ def oracle(ctx, trig, n_docs, per_rule={}):
     n = 0
     plugins = sorted(trig)
     for _ in range(n_docs):
-        P = ctx.rng.choice(plugins + ["fenced", "rst", "speedup"])
+        P = ctx.rng.choice(plugins + ["fenced", "rst", "speedup"]) if ctx.rng.random() < 0.9 else "speedup"
         others = [p for p in configs.PLUGINS if p != P]
         base = ctx.rng.sample(others, ctx.rng.randint(0, len(others)))
         pos = ctx.rng.randint(0, len(base))
@@ -88,7 +88,7 @@ def oracle(ctx, trig, n_docs, per_rule={}):
                     chars.add(ctx.rng.choice(cand))
         else:
             chars = trig.get(P) or set(EXTRA_TRIGGERS.get(P, ""))
-        if P == "speedup" and ctx.rng.random() < 0.5:
+        if P == "speedup" and ctx.rng.random() < 0.7:
             # speedup has no trigger characters: the documents C09 uses for its fast paths belong here too (line ends with blanks / tabs,
             # abbreviation keys that the text rule cuts into pieces, URLs, tables after plain lines)
             import importlib
